@@ -149,7 +149,7 @@ REGISTRY = {
         'not_decided': ['every statement about interleavings: lost wake-ups, cross-thread exactly-once and per-thread order'],
     },
     'C07': {
-        'modules': ['contracts.core_tree'], 'level': 'proof',
+        'modules': ['contracts.core_handlers', 'contracts.core_tree'], 'level': 'proof',
         'level_text': 'Forest representation invariant with ghost subtree sets (reflexive, transitive, antisymmetric, child<->parent, '
                       'upward unfolding, root, laminar), each conjunct re-established by register and by the completion of unregister '
                       'for every forest satisfying the quantifier\'s preconditions; exactly one registered/unregistered; queued events '
